@@ -426,6 +426,29 @@ try:
               "def preludeSrcB : B Unit := do"] + pl + ["def preludeSrcOk : Bool := %s" % ("true" if decl_ok else "false"), ""]
 except Exception as ex:
     problems.append("build_function_prelude: %s" % ex); lines += ["def preludeSrcB : B Unit := throw .err", "def preludeSrcOk : Bool := false", ""]
+# ---- build_cfg, prepare_jump_blocks and the head of translate_program's loop: the opcode classes are extracted, the rest is recognised as whole shapes
+try:
+    flat = " ".join(txt.split())
+    m = re.search(r"fn build_cfg\(&mut self, bcx: &mut FunctionBuilder, prog: &\[u8\]\) -> Result<\(\), Error> \{ let mut insn_ptr: usize = 0; while insn_ptr \* ebpf::INSN_SIZE < prog\.len\(\) \{ "
+                  r"let insn = ebpf::get_insn\(prog, insn_ptr\); match insn\.opc \{ ebpf::LD_DW_IMM => \{ insn_ptr \+= 1; \} ((?:ebpf::[A-Z0-9_]+ \| )*ebpf::[A-Z0-9_]+) => \{ self\.prepare_jump_blocks\(bcx, insn_ptr, &insn\); \} "
+                  r"((?:ebpf::[A-Z0-9_]+ \| )*ebpf::[A-Z0-9_]+) => \{ self\.insn_blocks \.entry\(insn_ptr as u32 \+ 1\) \.or_insert_with\(\|\| bcx\.create_block\(\)\); \} _ => \{\} \} insn_ptr \+= 1; \} Ok\(\(\)\) \}", flat)
+    if not m: raise SyntaxError("build_cfg has another shape")
+    jl = [C[x.strip()[6:]] for x in m.group(1).split("|")]; nl = [C[x.strip()[6:]] for x in m.group(2).split("|")]
+    pj = bool(re.search(r"fn prepare_jump_blocks\(&mut self, bcx: &mut FunctionBuilder, insn_ptr: usize, insn: &Insn\) \{ let insn_ptr = insn_ptr as u32; let next_pc: u32 = insn_ptr \+ 1; "
+                        r"let target_pc: u32 = \(insn_ptr as isize \+ insn\.off as isize \+ 1\) \.try_into\(\) \.unwrap\(\); let fallthrough_block = \*self \.insn_blocks \.entry\(next_pc\) \.or_insert_with\(\|\| bcx\.create_block\(\)\); "
+                        r"let target_block = \*self \.insn_blocks \.entry\(target_pc\) \.or_insert_with\(\|\| bcx\.create_block\(\)\); self\.insn_targets \.insert\(insn_ptr, \(fallthrough_block, target_block\)\); \}", flat))
+    th = bool(re.search(r"fn translate_program\(&mut self, bcx: &mut FunctionBuilder, prog: &\[u8\]\) -> Result<\(\), Error> \{ let mut insn_ptr: usize = 0; while insn_ptr \* ebpf::INSN_SIZE < prog\.len\(\) \{ "
+                        r"let insn = ebpf::get_insn\(prog, insn_ptr\); if let Some\(block\) = self\.insn_blocks\.get\(&\(insn_ptr as u32\)\) \{ let current_block = bcx\.current_block\(\)\.unwrap\(\); "
+                        r"if !self\.filled_blocks\.contains\(&current_block\) \{ bcx\.ins\(\)\.jump\(\*block, &\[\]\); \} bcx\.switch_to_block\(\*block\); \} bcx\.set_srcloc\(SourceLoc::new\(insn_ptr as u32\)\); match insn\.opc \{", flat))
+    tt = bool(re.search(r"_ => unimplemented!\(\"inst: \{:\?\}\", insn\), \} insn_ptr \+= 1; \} Ok\(\(\)\) \}", flat))
+    lines += ["/-- `build_cfg`: the opcodes for which it calls `prepare_jump_blocks`, and those after which only the next instruction starts a block -/",
+              "def cfgJumpOpcodesSrc : List Nat := %s" % str(sorted(jl)), "def cfgNextOnlySrc : List Nat := %s" % str(sorted(nl)),
+              "/-- `prepare_jump_blocks` (blocks for the next instruction and for `insn_ptr + off + 1`, which must fit a `u32`: `try_into().unwrap()`), the head of the loop of",
+              "    `translate_program` (switch to the instruction's block, closing an unterminated current block with `jump` first; `set_srcloc`) and its tail have the modelled shapes -/",
+              "def prepareJumpBlocksShape : Bool := %s" % ("true" if pj else "false"), "def translateHeadShape : Bool := %s" % ("true" if th else "false"), "def translateTailShape : Bool := %s" % ("true" if tt else "false"), ""]
+except Exception as ex:
+    problems.append("build_cfg: %s" % ex)
+    lines += ["def cfgJumpOpcodesSrc : List Nat := []", "def cfgNextOnlySrc : List Nat := []", "def prepareJumpBlocksShape : Bool := false", "def translateHeadShape : Bool := false", "def translateTailShape : Bool := false", ""]
 for p_ in problems: lines.append("/- not translated: %s -/" % p_.replace("-/", "- /"))
 lines += ["end Rbpf.Generated.Clif", ""]
 new = "\n".join(lines)
